@@ -15,8 +15,12 @@ Lemma answer_ok3s_parts a : answer_ok3s a = true -> answer_ok2 a /\ tclean a.
 Proof.
   unfold answer_ok3s, size_ok, tail_clean. intros H.
   apply andb_true_iff in H. destruct H as [H H3]. apply andb_true_iff in H. destruct H as [H1 H2].
-  apply andb_true_iff in H3. destruct H3 as [H3 H4]. apply N.ltb_lt in H2, H3.
-  split; [split; assumption|]. split; [exact H3|]. intros Hl. rewrite Hl in H4. apply N.eqb_eq. exact H4.
+  apply andb_true_iff in H3. destruct H3 as [H3 H4]. apply N.ltb_lt in H2.
+  split; [split; assumption|]. split.
+  - apply orb_true_iff in H3. destruct H3 as [H3|H3].
+    + apply andb_true_iff in H3. destruct H3 as [A B]. apply N.eqb_eq in A, B. left. split; assumption.
+    + right. apply N.ltb_lt. exact H3.
+  - intros Hl. rewrite Hl in H4. apply N.eqb_eq. exact H4.
 Qed.
 
 Lemma kept_ann_sound l : kept_ann l = true -> Forall kept1 l.
